@@ -70,6 +70,30 @@ def srun [Add α] (zero : α) : SState α → List (Op α) → SState α × List
     let t := srun zero r.1 ops
     (t.1, r.2 :: t.2)
 
+/-! vocabulary of the invariant `count = n + 1/2 − Σ started deltas` -/
+
+/-- cumulative time of the adds a history got accepted (negative deltas are rejected) -/
+def acceptedTime : List (Op α) → Rat
+  | [] => 0
+  | .add d _ :: ops => (if d < 0 then 0 else d) + acceptedTime ops
+  | _ :: ops => acceptedTime ops
+
+/-- number of samples delivered -/
+def delivered : List (Obs α) → Nat
+  | [] => 0
+  | .out _ _ :: os => delivered os + 1
+  | _ :: os => delivered os
+
+/-- total of the deltas still waiting in `_not_playing` -/
+def qsum : List (Rat × List α) → Rat
+  | [] => 0
+  | p :: q => p.1 + qsum q
+
+/-- cumulative times `T_i = d_0 + … + d_i`, starting from `T` -/
+def cumTimes (T : Rat) : List Rat → List Rat
+  | [] => []
+  | d :: ds => (T + d) :: cumTimes (T + d) ds
+
 /-- length of the finite mix: `max_i (start_i + len_i)` (0 for no event) -/
 def mixLength (evs : List (SEv α)) : Nat :=
   evs.foldl (fun m e => max m (e.start + e.data.length)) 0
